@@ -91,6 +91,9 @@ func (m c18Msg) valid() bool {
 	if m.RespCL == 2 && m.respSize() == 0 {
 		return false
 	}
+	if m.ReqTr == 1 && m.reqSize() == 0 && m.ReqCL == 1 { // Request.Body nil: net/http sends no trailers without a body
+		return false
+	}
 	if m.Abort == 1 && m.reqSize() < 2 {
 		return false
 	}
